@@ -37,7 +37,8 @@ def run (cmd : String) (a : Args) : Except String String := do
         match m.2 with
         | .exact v => s!"{m.1}:e:{v}"
         | .range lo hi => s!"{m.1}:r:{lo}:{hi}"))
-      ++ ";Dtc.Format|" ++ String.intercalate "," (isoDtcFormat.map fun c => s!"{c.1}:e:{c.2}"))
+      ++ ";Dtc.Format|" ++ String.intercalate "," (isoDtcFormat.map fun c => s!"{c.1}:e:{c.2}")
+      ++ ";Dtc.FunctionalGroupIdentifiers|" ++ String.intercalate "," (isoFunctionalGroup.map fun c => s!"{c.1}:e:{c.2}"))
   | "spec.first" =>   -- first constant with a value, over 0..255 (Dtc.Format)
     let ms ← getStr a "members"
     let members ← if ms == "-" then pure [] else (ms.splitOn ",").mapM parseMember
